@@ -582,6 +582,27 @@ func (e *Exec) specCall(c *ast.CallExpr, env *SpecEnv) (Val, types.Type) {
 				return iv(mkIte(sx("<=", x, y), x, y)), ta
 			}
 			return iv(mkIte(sx(">=", x, y), x, y)), ta
+		case "string", "strof":
+			// string(b) for a byte slice: exactly the term the program-side conversion produces
+			v, t := e.evalSpec1(c.Args[0], env)
+			switch sl := v.(type) {
+			case SliceV:
+				e.declareFun("str.of", []string{SInt, SInt, SInt, SArrI}, SInt)
+				key, sort := elemsKey(types.Typ[types.Byte])
+				r := sx("str.of", sl.Base, sl.Off, sl.Len, mkSelect(e.heapGet(key, sort), sl.Base))
+				e.addFact(mkEq(sx("strlen", r), sl.Len))
+				return iv(r), types.Typ[types.String]
+			case ArrSliceV:
+				e.declareFun("str.of", []string{SInt, SInt, SInt, SArrI}, SInt)
+				b := sl.Base
+				if b == "" {
+					b = "0"
+				}
+				r := sx("str.of", b, sl.Off, sl.Len, sl.Arr)
+				e.addFact(mkEq(sx("strlen", r), sl.Len))
+				return iv(r), types.Typ[types.String]
+			}
+			return v, t
 		case "strsrc":
 			// strsrc(b): the string a byte slice was converted from ([]byte(s))
 			v, _ := e.evalSpec1(c.Args[0], env)
@@ -927,6 +948,11 @@ func (e *Exec) flatArgs0(v Val, t types.Type) ([]string, []string) {
 		return []string{x.Arr, x.Off, x.Len}, []string{arrSort(x.Elem), SInt, SInt}
 	case SliceV:
 		et := elemType(t)
+		if k := kindOf(et); et != nil && (k == kRef || k == kStruct || k == kSlice) {
+			// slices of references/structs/slices (e.g. multiaddrs): identified by their header; their contents are
+			// treated as immutable while the value is in use
+			return []string{x.Base, x.Off, x.Len}, []string{SInt, SInt, SInt}
+		}
 		key, sort := elemsKey(et)
 		es := SInt
 		if kindOf(et) == kBool {
